@@ -16,6 +16,7 @@ EXTENDS Sync, Integers, Sequences, TLC, Json, IOUtils
 
 NoThr    == -1
 Slack    == 100            \* ms, see NoOutwait below
+OverSlack == 300           \* ms, tolerated lateness of a bounded wait's return
 Inf      == 1073741823
 
 Tr == ndJsonDeserialize(IOEnv.TRACE)
@@ -68,8 +69,14 @@ Lockset(t) == {m \in Mutexes : Holds(t, m)}
 Life     == e.t = evt /\ evAsleep
 Clearing == Life \/ e.k = "end"
 Late     == {d \in owed : evUntil > d + Slack /\ e.ms > d + Slack}
-viol1    == Chk(viol, IF evUntil = Inf THEN "c07.outwait.never" ELSE "c07.outwait.late",
-                ~(Clearing /\ evAsleep /\ Late # {}))
+\* A bounded wait returns when its timeout expires: the event thread's first sign of life
+\* after a wait planned until evUntil (hook time + timeout argument) is not later than
+\* evUntil + OverSlack.  (Catches a backend that converts the timeout wrongly and sleeps longer
+\* than it was asked to; observed time, therefore reported only when a re-run shows it again.)
+Overslept == Life /\ evUntil # 0 /\ evUntil # Inf /\ e.ms > evUntil + OverSlack
+viol1    == Chk(Chk(viol, IF evUntil = Inf THEN "c07.outwait.never" ELSE "c07.outwait.late",
+                    ~(Clearing /\ evAsleep /\ Late # {})),
+                "c07.outwait.overslept", ~Overslept)
 owed1    == IF Clearing THEN {} ELSE owed
 asleep1  == IF Life THEN FALSE ELSE evAsleep
 stale1   == IF Life THEN FALSE ELSE evStale
